@@ -81,7 +81,19 @@ def _one(t, tmpdir, k, pattern, outlen, as_path, exhaustive, meta_kind=0, dtype=
         outlen = L          # the function hands back the trace's own samples object (array-like, not an ndarray)
 
     wide = ret == 'wide' and np.dtype(dtype).kind == 'i' and not raw
+    swapped = ret == 'swapped' and not raw
     buf = {}
+
+    class UserSyncError(scared.SynchronizerError):
+        pass
+
+    class UserResyncError(scared.ResynchroError):
+        pass
+
+    # what the user function raises to reject a trace: the documented ResynchroError (or a subclass), and any other exception -
+    # including the package's own SynchronizerError, which a user may well pick to signal "pattern not found"
+    REJECT = [scared.ResynchroError, UserResyncError]
+    OTHER = [ValueError, scared.SynchronizerError, IndexError, UserSyncError, ZeroDivisionError, RuntimeError, KeyError]
 
     def expected_data(i):
         if raw:
@@ -102,9 +114,10 @@ def _one(t, tmpdir, k, pattern, outlen, as_path, exhaustive, meta_kind=0, dtype=
             calls.append(i)
         a = pattern[i]
         if a == 'r':
-            raise scared.ResynchroError('rejected by the monitor')
+            raise REJECT[(k + i) % len(REJECT)]('rejected by the monitor')
         if a == 'v':
-            raise ValueError('injected failure')
+            t.count('exception_kind:' + OTHER[(k + i) % len(OTHER)].__name__)
+            raise OTHER[(k + i) % len(OTHER)]('injected failure')
         if a == 'n':
             return None
         if raw:
@@ -116,6 +129,11 @@ def _one(t, tmpdir, k, pattern, outlen, as_path, exhaustive, meta_kind=0, dtype=
             b = buf.setdefault('a', np.zeros(outlen, dtype=dtype))
             b[...] = trace_object.samples[:outlen] * 2 + i
             return b
+        if swapped:
+            # the data comes back in the other byte order (a window cut out of a big-endian acquisition): same values
+            r = np.asarray(expected_data(i))
+            t.count('returned_in_other_byte_order')
+            return r.astype(r.dtype.newbyteorder())
         if outlen <= L:
             return trace_object.samples[:outlen] * 2 + i
         return np.concatenate([trace_object.samples[:], np.full(outlen - L, float(i), dtype=dtype)])
@@ -229,7 +247,7 @@ def run_case(case):
     try:
         if case['gen'] == 'exh':
             for k, p in enumerate(case['patterns']):
-                _one(t, tmpdir, k, p, case['outlen'], case['as_path'], True, meta_kind=k % 3, pre_check=(1 if k % 4 == 3 else 0), raw=(k % 5 == 2), reuse_output=(None if k % 7 else bool(k % 2)), ret=['fresh', 'same_buffer', 'fresh', 'wide'][k % 4],
+                _one(t, tmpdir, k, p, case['outlen'], case['as_path'], True, meta_kind=k % 3, pre_check=(1 if k % 4 == 3 else 0), raw=(k % 5 == 2), reuse_output=(None if k % 7 else bool(k % 2)), ret=['fresh', 'same_buffer', 'swapped', 'wide', 'fresh', 'swapped', 'fresh', 'same_buffer'][k % 8],
                      dtype=['float32', 'int16'][(k // 4) % 2])
             sig = f"exh|{len(case['patterns'][0])}|{case['patterns'][0]}|{case['outlen']}|{case['as_path']}"
         else:
@@ -253,7 +271,7 @@ def run_case(case):
                     p[0], p[-1] = 'a', 'a'
                 _one(t, tmpdir, k, ''.join(p), int(rng.choice([3, 7, 12, 1])), bool(rng.integers(2)), False, meta_kind=int(rng.integers(3)),
                      dtype=['float32', 'float64', 'int16'][int(rng.integers(3))], pre_check=int(rng.choice([0, 0, 1, 2])), raw=bool(rng.random() < 0.2),
-                     reuse_output=[None, None, None, True, False][int(rng.integers(5))], ret=['fresh', 'same_buffer', 'wide'][int(rng.integers(3))])
+                     reuse_output=[None, None, None, True, False][int(rng.integers(5))], ret=['fresh', 'same_buffer', 'wide', 'swapped'][int(rng.integers(4))])
             sig = f"rand|{case['sub']}"
     finally:
         shutil.rmtree(tmpdir, ignore_errors=True)
